@@ -55,6 +55,18 @@ class Clause(object):
     # -- recording
     def _add(self, ok, fi, node, what, witness=None, tag=None, kind='path'):
         unit = fi.qual if hasattr(fi, 'qual') else str(fi)
+        if not ok:
+            # a function that hands part of its work to a private helper the analysis could not write back into it (a generator,
+            # a helper that takes callables, returns from inside loops ...) is not fully visible: what looks like a missing step may
+            # be in the helper.  That is "cannot tell" (exit 2), not a violation.
+            oq = self._opaque_calls(fi)
+            if oq:
+                msg = '%s: delegates to the private helper%s %s, which could not be inlined; the rule "%s" cannot be decided here' % (
+                    unit, 's' if len(oq) > 1 else '', ', '.join(sorted(oq)), what[:120])
+                if msg not in self.run.errors:
+                    self.run.errors.append('%s-%s: %s' % (self.run.prop, self.cid, msg))
+                self.errored = True
+                return None
         if node is not None and hasattr(node, 'lineno'):
             loc = '%s:%d' % (fi.module.path if hasattr(fi, 'module') else '?', node.lineno)
         elif hasattr(fi, 'loc'):
@@ -66,6 +78,27 @@ class Clause(object):
                         what, witness, kind)
         self.obs.append(ob)
         return ob
+
+    def _opaque_calls(self, fi):
+        repo = getattr(self.run, 'repo', None)
+        names = set(getattr(repo, 'opaque_helpers', None) or ())
+        node = getattr(fi, 'node', None)
+        if node is None:
+            return set()
+        import ast as _ast
+        # closures defined inside the function (other than the four the package has always had) are helpers of the same kind
+        for x in _ast.walk(node):
+            if x is not node and isinstance(x, (_ast.FunctionDef, _ast.AsyncFunctionDef)) and x.name not in ('select', 'prepare_pattern', 'preexec_wrapper', 'write_to_stdout'):
+                names.add(x.name)
+        if not names:
+            return set()
+        out = set()
+        for x in _ast.walk(node):
+            if isinstance(x, _ast.Call):
+                nm = x.func.attr if isinstance(x.func, _ast.Attribute) else (x.func.id if isinstance(x.func, _ast.Name) else None)
+                if nm in names:
+                    out.add(nm)
+        return out
 
     def ok(self, fi, node, what, kind='path', tag=None):
         return self._add(True, fi, node, what, None, tag, kind)
